@@ -428,7 +428,7 @@ func (r *Runner) classify(res []HarnessResult) {
 		case "vacuous":
 			r.inconsistent(fmt.Sprintf("vacuous harness %s: %s", hr.Name, hr.Detail))
 		case "unsupported":
-			r.inconsistent(fmt.Sprintf("harness %s uses a construct outside the encoder: %s", hr.Name, trunc(hr.Detail, 300)))
+			r.inconsistent(fmt.Sprintf("harness %s uses a construct outside the encoder: %s", hr.Name, trunc(hr.Detail, 3000)))
 		default:
 			r.inconsistent(fmt.Sprintf("harness %s inconclusive: %s", hr.Name, hr.Detail))
 		}
